@@ -18,8 +18,8 @@ from . import lean
 
 VERIF = lean.VERIF
 REPO = os.environ.get("H5_REPO", "/repo")
-EVID = os.path.join(VERIF, "evidence")
-REPLAY = os.path.join(VERIF, "evidence", "replay")
+EVID = os.environ.get("H5_EVIDENCE_DIR") or os.path.join(VERIF, "evidence")
+REPLAY = os.path.join(EVID, "replay")
 KNOWN = os.path.join(VERIF, "known_findings.json")
 
 
